@@ -106,7 +106,7 @@ func (h Header) Write(w io.Writer) error {
 	}
 
 	// Write mid, this is defined to be the first value
-	_, err = fmt.Fprintf(w, "Mid: %s\r\n", h.get(HEADER_MID))
+	_, err = fmt.Fprintf(w, "Mid: %s\r\n", textproto.TrimString(h.get(HEADER_MID)))
 	if err != nil {
 		return err
 	}
